@@ -46,8 +46,14 @@ def main():
         ctx.rule = getattr(mod, 'RULE', '')
         ctx.extra['assumptions'] = list(getattr(mod, 'ASSUMPTIONS', []))
         ctx.extra['trusted_base'] = list(getattr(mod, 'TRUSTED', []))
-        ctx.translate(getattr(mod, 'GEN', []))
-        ctx.build(mod.PROPS, mod.OBLIGATIONS)
+        gen = getattr(mod, 'GEN', [])
+        ctx.translate(gen() if callable(gen) else gen)
+        obl = mod.OBLIGATIONS
+        try:
+            obl = obl() if callable(obl) else obl
+        except Exception as e:
+            raise common.MachineryError('cannot enumerate obligations: %r' % (e,))
+        ctx.build(mod.PROPS, obl)
         mod.run(ctx)
         if (ctx.broken or ctx.disagreements) and not ctx.violations:
             # a proof obligation or the tie broke: search harder for an input on which the property fails
